@@ -698,3 +698,47 @@ def rule_factor_reverse(P):
         r.add(f, cs[0] if cs else f.node, ok, "" if ok else f"{api} must be called for every (state, weight) of {src}", construct=f"reverse: {api} from {src}")
     r.min_instances = 3
     return r
+
+
+# ---------------------------------------------------------------- FACTOR-FROMPAIRS
+
+
+def rule_factor_frompairs(P):
+    r = RuleResult("FACTOR-FROMPAIRS", "FST.from_pairs builds, for the i-th pair, the chain (i,0) -(x,y)-> (i,1) ... over zip_longest(xs, ys, "
+                   "fillvalue=EPSILON), enters it from the initial state at (i, 0) and leaves it to the final state from "
+                   "(i, max(len(xs), len(ys))) — the end of that pair's own chain", "every pair's chain is connected end to end")
+    f = P.func("fst.py::FST.from_pairs")
+    r.looked_at(f)
+    arcs = _adds(f, names=("add_arc",))
+    outer = [n for n in walk_live(f.node) if isinstance(n, ast.For) and isinstance(n.iter, ast.Call) and W.call_name(n.iter) == "enumerate"
+             and norm(n.iter.args[0]) == f.params[0]]
+    if len(outer) != 1 or len(arcs) != 3:
+        raise AnalysisError("fst.py::FST.from_pairs: expected the pair loop and three add_arc sites")
+    lp = outer[0]
+    i = norm(lp.target.elts[0])
+    xs, ys = (norm(e) for e in lp.target.elts[1].elts)
+    init = [norm(c.args[0]) for c in _adds(f, names=("add_I",))]
+    fin = [norm(c.args[0]) for c in _adds(f, names=("add_F",))]
+    inner = [n for n in walk_live(lp) if isinstance(n, ast.For) and n is not lp]
+    chain = [c for c in arcs if inner and W._within(c, inner[0])]
+    entry = [c for c in arcs if c not in chain and init and norm(c.args[0]) == init[0]]
+    exit_ = [c for c in arcs if c not in chain and c not in entry]
+    ok = len(chain) == 1 and len(entry) == 1 and len(exit_) == 1 and len(init) == 1 and len(fin) == 1
+    if ok:
+        il = inner[0]
+        it = norm(il.iter)
+        j = norm(il.target.elts[0]) if isinstance(il.target, ast.Tuple) else "?"
+        okc = it == f"enumerate(zip_longest({xs}, {ys}, fillvalue=EPSILON))" and W.cnorm(f.node, chain[0].args[0], chain[0]) == f"({i}, {j})" \
+            and W.cnorm(f.node, chain[0].args[2], chain[0]) == f"({i}, {j} + 1)"
+        r.add(f, chain[0], okc, "" if okc else "chain arcs must go (i, j) → (i, j+1) over enumerate(zip_longest(xs, ys, fillvalue=EPSILON))")
+        oke = W.cnorm(f.node, entry[0].args[2], entry[0]) == f"({i}, 0)" and W._within(entry[0], lp) and not W._within(entry[0], il)
+        r.add(f, entry[0], oke, "" if oke else "each pair's chain must be entered at (i, 0)")
+        src = W.cnorm(f.node, exit_[0].args[0], exit_[0])
+        okx = src in (f"({i}, max(len({xs}), len({ys})))", f"({i}, max(len({ys}), len({xs})))") and norm(exit_[0].args[2]) == fin[0] \
+            and W._within(exit_[0], lp) and not W._within(exit_[0], il)
+        r.add(f, exit_[0], okx, "" if okx else f"the exit arc must leave from (i, max(len(xs), len(ys))), the end of this pair's chain; it leaves from `{src}` "
+              f"(a counter carried over from the inner loop is stale for an empty pair)")
+    else:
+        r.add(f, f.node, False, "entry / chain / exit arcs of from_pairs not recognised", construct="from_pairs structure")
+    r.min_instances = 3
+    return r
